@@ -152,7 +152,7 @@ SETTER_VALUES = {
     # member -> (constructor defaults, [(new value, description)])
     "a": (dict(a=6.0, ecut=2), [(9.0, "a = 9"), ([[6.0, 0.5, 0.0], [0.0, 7.0, 0.0], [0.3, 0.0, 8.0]], "a = triclinic")]),
     "ecut": (dict(a=10.0, ecut=10), [(11, "ecut = 11 (same FFT sampling s = 30 as ecut = 10)"), (4, "ecut = 4")]),
-    "s": (dict(a=6.0, ecut=2), [(12, "s = 12"), ([9, 10, 12], "s = [9, 10, 12]")]),
+    "s": (dict(a=6.0, ecut=2), [(12, "s = 12"), ([9, 10, 12], "s = [9, 10, 12]"), ([12, 9, 10], "s = [9, 10, 12] then s = [12, 9, 10] (same number of grid points)")]),
     "pos": (dict(a=6.0, ecut=2), [([[1.0, 0.5, 0.2]], "pos = [[1, 0.5, 0.2]]")]),
 }
 
@@ -169,6 +169,8 @@ def generic_setter_history(member):
             for fin in ("build()", "SCF(atoms)"):
                 a = _mk(**base)
                 kcfg(a)
+                if member == "s" and val == [12, 9, 10]:
+                    a.s = [9, 10, 12]  # an earlier sampling with the same number of points but another shape
                 a.build()
                 setattr(a, member, val)
                 f = _mk(**dict(base, **({member: val} if member != "s" else {})))
